@@ -516,11 +516,17 @@ static std::string selfDestruct(const std::string &variant)
   sole = Transport::tcp(cfg);
   Peer peer;
   peer.start();
-  std::atomic<bool> claimed{false}, released{false};
-  auto drop = [&] { if (!claimed.exchange(true)) { sole.reset(); released.store(true); } };
-  if (variant == "close") sole->onClose([&](SessionId, const TransportErrorInfo &) { drop(); });
-  else if (variant == "data") sole->onData([&](SessionId, iora::core::BufferView, Clock::time_point) { drop(); });
-  else sole->onConnect([&](SessionId, const TransportAddress &) { drop(); });
+  // the flags live on the heap and are captured by value: the engine thread is DETACHED by the self-destruction, is
+  // never joined by this function, and may still run a callback while (or after) the function returns - flags on this
+  // stack frame would be reused by the next scenario without any happens-before edge (ThreadSanitizer reported exactly
+  // that, a defect of this harness, not of the transport)
+  struct Flags { std::atomic<bool> claimed{false}, released{false}; };
+  auto fl = std::make_shared<Flags>();
+  auto drop = [fl] { if (!fl->claimed.exchange(true)) { sole.reset(); fl->released.store(true); } };
+  if (variant == "close") sole->onClose([drop](SessionId, const TransportErrorInfo &) { drop(); });
+  else if (variant == "data") sole->onData([drop](SessionId, iora::core::BufferView, Clock::time_point) { drop(); });
+  else sole->onConnect([drop](SessionId, const TransportAddress &) { drop(); });
+  std::atomic<bool> &released = fl->released;
   if (!sole->start().isOk()) { peer.stop(); sole.reset(); return "STARTFAIL"; }
   (void)sole->connect("127.0.0.1", variant == "close" ? 1 : peer.port, TlsMode::None);
   for (int i = 0; i < 300 && !released.load(); ++i)
